@@ -439,7 +439,7 @@ impl<'m> Driver<'m> {
                 }
             }
         }
-        self.after_progress(before, true);
+        self.after_progress(before, n > 0);
         self.check_vpos(tag, true);
         self.prev = tag.into();
     }
@@ -630,7 +630,10 @@ impl<'m> Driver<'m> {
                 } else {
                     "seek-past-eof-marker-redelivers-stale-block"
                 });
-            } else if k == 0 && got == 0 && fresh {
+            } else if k == 0 && got == 0 {
+                // only a reader whose block is still the default one (nothing loaded yet) can get here:
+                // a loaded non-empty block would have been re-delivered (k > 0)
+                let _ = fresh;
                 known = Some("seek-to-file-end-on-fresh-reader-reports-position-zero");
             }
         }
